@@ -178,6 +178,9 @@ PROPS = {
         validate_conn_traces=True,
         validate_link_traces=True,
         streams=[
+            # the behaviour's side of the hand-over on arbitrary report sequences (late, stale-source and out-of-order
+            # reports included): monitor "a connection is handed a new wantlist only after the outcome of the previous one"
+            S("node", ["--cases", 120, "--peers", 2], ["--cases", 6000, "--peers", 2, "--ops", 200]),
             S("sim", ["--cases", 120], ["--cases", 8000, "--nodes", 4, "--actions", 50]),
             S("simfault", ["--cases", 150, "--conns", 3], ["--cases", 8000, "--conns", 3, "--nodes", 4, "--actions", 50]),
             S("simlate", ["--cases", 80], ["--cases", 4000, "--conns", 3]),
